@@ -691,6 +691,42 @@ static bool p_invalid_code(Work &W, Env &E, Plan &P, bool frame, bool longcode) 
     if (frame) P.pos.push_back("frame"); if (b == (int) W.h.blocks.size() - 1) P.pos.push_back("last-block"); if (b == 0 && !frame) P.pos.push_back("first-block");
     return true;
 }
+// a block / frame code that is invalid AND repeated: both recovery rows apply to the one header ("use the code anyway", then
+// "reopen the specified block/frame") -> the contents of the two containers are merged under the invalid code.
+// (F-INVALID-DUP-FRAME, fixed: the reopening went through the validating public getter and aborted the parse.)
+static bool p_invalid_dup(Work &W, Env &E, Plan &P, bool frame) {
+    int b = *g::range(0, (int) W.h.blocks.size() - 1);
+    if (frame && W.h.blocks[(size_t) b].frames.empty()) add_frame(W.h.blocks[(size_t) b], E);
+    Doc host = W.h;
+    int f = frame ? *g::range(0, (int) W.h.blocks[(size_t) b].frames.size() - 1) : -1;
+    char16_t bad = *rc::gen::element<char16_t>(0x01, 0x7F, 0xFFFE, 0x1F, 0xFDD0);
+    ustr pre = cont_of(W.h, b, f).code + u"QZ", post = u"ZQ";
+    cont_of(W.h, b, f).code = pre + ustr(1, bad) + post;
+    P.cn.mask = true; P.cn.pre = pre; P.cn.post = post; P.cn.full = cont_of(W.h, b, f).code;
+    Doc merged = W.h;
+    int code = frame ? CIF_INVALID_FRAMECODE : CIF_INVALID_BLOCKCODE, dup = frame ? CIF_DUP_FRAMECODE : CIF_DUP_BLOCKCODE;
+    int sb = b, sf = -1;
+    if (frame) {
+        Container &blk = W.h.blocks[(size_t) b];
+        Container s = split_off(blk.frames[(size_t) f]);
+        blk.frames.push_back(s); sf = (int) blk.frames.size() - 1;
+        W.forces.push_back(Force{b, -1, {{2, sf}}});
+    } else {
+        Container s = split_off(W.h.blocks[(size_t) b]);
+        sb = *g::chance(50) ? b + 1 : (int) W.h.blocks.size();
+        W.h.blocks.insert(W.h.blocks.begin() + sb, s);
+    }
+    if (!start(W, E, P)) return false;
+    Rend C; if (!render(host, E.dialect, E.seed, {}, C)) return false;
+    P.control = host; P.control_toks = C.t; P.recovered = merged;
+    int hdr = -1, hdr2 = -1;
+    for (auto &ct : W.R.conts) { if (ct.blk == b && ct.frm == f) hdr = ct.hdr; if (ct.blk == sb && ct.frm == sf) hdr2 = ct.hdr; }
+    if (hdr < 0 || hdr2 < 0 || hdr2 < hdr) return false;
+    P.first = {CIF_DISALLOWED_CHAR, code}; P.follow = {CIF_DISALLOWED_CHAR, code, dup}; P.must = dup;
+    P.lo_tok = hdr; P.hi_tok = hdr + 1;
+    if (frame) P.pos.push_back("frame"); if (b == (int) W.h.blocks.size() - 1) P.pos.push_back("last-block");
+    return true;
+}
 // data before the first block header  ->  CIF_NO_BLOCK_HEADER, the content goes to a block with the empty code
 static bool p_no_block_header(Work &W, Env &E, Plan &P) {
     Container &b0 = W.h.blocks[0];
@@ -1160,6 +1196,8 @@ static const std::vector<Row> &table() {
         {"invalid-block-char", 2, [](Work &w, Env &e, Plan &p) { return p_invalid_code(w, e, p, false, false); }, false},
         {"invalid-frame-long", 2, [](Work &w, Env &e, Plan &p) { return p_invalid_code(w, e, p, true, true); }, false},
         {"invalid-frame-char", 2, [](Work &w, Env &e, Plan &p) { return p_invalid_code(w, e, p, true, false); }, false},
+        {"invalid-and-dup-block", 1, [](Work &w, Env &e, Plan &p) { return p_invalid_dup(w, e, p, false); }, false},
+        {"invalid-and-dup-frame", 1, [](Work &w, Env &e, Plan &p) { return p_invalid_dup(w, e, p, true); }, false},
         {"no-block-header", 2, p_no_block_header, false},
         {"partial-packet", 3, p_partial_packet, false},
         {"null-loop", 2, p_null_loop, false},
